@@ -191,7 +191,7 @@ def all_combos():
 # --------------------------------------------------------------------------------------------------
 
 RACE_METHODS = ['is_file', 'exists', 'is_dir', 'list_dir', 'walk', 'get_size', 'declare_read', 'read_text', 'subbuild', 'build_file']
-RACE_OWNERS = ['sub', 'file']
+RACE_OWNERS = ['sub', 'file', 'root']
 
 
 def race_once(method, owner, spec):
@@ -275,8 +275,23 @@ def race_once(method, owner, spec):
                     raise r[1]
             return 'root'
 
+        def root_owner(b):
+            # the root function itself is the owner: it starts the straggler and returns, so the straggler races
+            # with the end of the build (cache write and commit run in the same managed thread as the root function)
+            owner_body(b)
+            return 'root'
+
         try:
-            info['outcome'] = ('ok', FileBuilder.build(cache, 'c17r', root))
+            if owner == 'root':
+                S[0] = sched.Sched(spec)
+                res = S[0].run_all([lambda: FileBuilder.build(cache, 'c17r', root_owner)])
+                info['decisions'] = S[0].n
+                info['deadlock'] = S[0].deadlocked
+                if res[0] is not None and res[0][0] == 'exc':
+                    raise res[0][1]
+                info['outcome'] = ('ok', res[0][1])
+            else:
+                info['outcome'] = ('ok', FileBuilder.build(cache, 'c17r', root))
         except Exception as e:
             info['outcome'] = ('exc', type(e).__name__ + ': ' + str(e)[:80])
         sched.disable()
@@ -304,7 +319,7 @@ def race_once(method, owner, spec):
                         if under_owner:
                             attached = True
                     walk_ops(op.get('suboperations', []), under_owner or is_owner)
-            walk_ops(cj.get('rootOperations', []), False)
+            walk_ops(cj.get('rootOperations', []), owner == 'root')
         info['attached'] = attached
         info['anywhere'] = anywhere
         # behavioural confirmation: flip the probed answer and rebuild (the spawn is not repeated: plain functions)
@@ -333,7 +348,7 @@ def race_once(method, owner, spec):
             else:
                 b.build_file(os.path.join(R, 'out', 'o'), 'owner', lambda bb, p: owner2(bb, p))
             return 'root'
-        if cj is not None and method not in ('subbuild', 'build_file'):
+        if cj is not None and method not in ('subbuild', 'build_file') and owner != 'root':
             try:
                 FileBuilder.build(cache, 'c17r', root2)
                 info['owner_reexecuted_after_flip'] = bool(relog)
@@ -363,6 +378,19 @@ def check_race(method, owner, spec):
         return fails, info
     if st_[0] not in ('value', 'RuntimeError'):
         fails.append(failure('C17.race_exception', 'straggler %s raised %s (neither a result nor RuntimeError)' % (method, st_[0]), case, st_[1]))
+    if owner == 'root':
+        # the root function is not cacheable: a query result needs no record; an accepted build_file/subbuild must be
+        # part of the committed build (recorded in the cache file, output present), a refused one must have no effect
+        if st_[0] == 'value' and method in ('subbuild', 'build_file') and not (info['anywhere'] and (method == 'subbuild' or info['late_file'])):
+            fails.append(failure('C17.race_root_orphan', 'straggler %s on the root builder was accepted but is not part of the committed build '
+                                 '(recorded=%s, output exists=%s)' % (method, info['anywhere'], info['late_file']), case, ''))
+        if st_[0] == 'RuntimeError' and method in ('subbuild', 'build_file') and (info['late_invoked'] or info['late_file'] or info['anywhere']):
+            fails.append(failure('C17.race_refused_with_effect',
+                                 'straggler %s was refused with RuntimeError but had an effect (function invoked=%s, output exists=%s, cache entry=%s)' % (
+                                     method, info['late_invoked'], info['late_file'], info['anywhere']), case, ''))
+        if info['tmp']:
+            fails.append(failure('C17.race_effect', 'temporary directory left', case, ''))
+        return fails, info
     if st_[0] == 'value' and not info['attached']:
         fails.append(failure('C17.race_unrecorded', 'straggler %s on a %s builder got a result that is not part of the owner\'s record' % (method, owner),
                              case, json.dumps(info['cache'])[:800]))
@@ -465,6 +493,15 @@ def run_shard(shard):
 def replay(case):
     if 'race' in case:
         return check_race(*case['race'])[0]
+    if 'race_multi' in case:
+        # several recorded schedules of one finding (line-level decision numbers shift with any change of the library)
+        for m, o, spec in case['race_multi']:
+            fs, _info = check_race(m, o, spec)
+            if fs:
+                for f in fs:
+                    f['case'] = case
+                return fs
+        return []
     if 'race_sweep' in case:
         # schedule-robust witness: every single line-level preemption of the (method, owner) race
         m, o = case['race_sweep']
